@@ -538,7 +538,11 @@ vbi_bool vbi_proxy_msg_handle_read( VBIPROXY_MSG_STATE * pIO,
 			   pIO->sock_fd, pIO->readLen,
 			   (long) sizeof(VBIPROXY_MSG_HEADER),
 			   max_read_len + (long) sizeof(VBIPROXY_MSG_HEADER));
-                  result = FALSE;
+
+                  /* Must not enter read phase two: the length fails its
+                     assertion or, when smaller than readOff, wraps in
+                     the recv() size. The caller closes the connection. */
+                  return FALSE;
                }
             }
             else
